@@ -41,15 +41,18 @@ def cases(ctx):
     for j in range(120 if ctx.quick else 2500):
         r = ctx.rng("C17g3", j)
         single = r.random() < 0.5
-        c = gen.rand_circuit(r, n_in=r.randint(2, 6), n_gates=r.randint(3, 14), max_fanin=2, consts=0.15 if r.random() < 0.3 else 0.0,
+        wide = j % 5 == 4
+        c = gen.rand_circuit(r, n_in=r.randint(2, 6), n_gates=r.randint(3, 14), max_fanin=5 if wide else 2, consts=0.15 if r.random() < 0.3 else 0.0,
                              extra_out=0.0 if single else 0.25, out_is_input=0.0 if single else 0.3, loaded_in_out=0.0 if single else 0.25)
         if single:
             outs = sorted(c.outputs())
             keep = outs[-1]
             for o in outs[:-1]:
                 c.set_output(o, False)
-            # half of the time an input outside the cone of the output stays (unloaded inputs are lint-clean)
-            c.remove_unloaded(inputs=(j % 2 == 0))
+            # half of the time an input outside the cone of the output stays (unloaded inputs are lint-clean); one time in
+            # four gates that hang off the cone without being observed stay as well
+            if j % 4 != 3:
+                c.remove_unloaded(inputs=(j % 2 == 0))
         p = proj(c)
         if not p["n"] or not any(p["out"]):
             continue
@@ -81,7 +84,7 @@ def topo_hint(sgs):
 def run_case(case, ctx):
     import circuitgraph as cg
 
-    c = build(case["c"])
+    c = build(case["c"], case.get("ord"))
     exc, L, superc = "", [], None
     try:
         if case["super"]:
@@ -91,7 +94,8 @@ def run_case(case, ctx):
             L = cg.tx.supergates(c)
     except Exception as e:
         exc = type(e).__name__
-    ev = {"kind": "supergates", "c": case["c"], "form": "super" if case["super"] else "list", "L": [proj(s) for s in L],
+    ev = {"kind": "supergates", "c": case["c"], "wide": max([len(f) for f in case["c"]["fi"]] + [0]) > 2,
+          "form": "super" if case["super"] else "list", "L": [proj(s) for s in L],
           "superc": proj(superc) if superc is not None else {}, "exc": exc}
     ev["nontrivial"] = sum(case["c"]["out"]) >= 2 or c.has_reconvergent_fanout()
     # feature used by the known-findings file: two different outputs whose cones share a gate
